@@ -159,6 +159,14 @@ def class_test(test, var, cls):
                     and isinstance(e.comparators[0], ast.Constant) and e.comparators[0].value == "_"):
                 return True          # holds for "_" and for a list of "_" alike
         return None
+    # not A   (a str is a Sequence: `not isinstance(var.values, Sequence)` is false for "_" and for a list)
+    if isinstance(test, ast.UnaryOp) and isinstance(test.op, ast.Not):
+        v = class_test(test.operand, var, cls)
+        return None if v is None else (False if v == "sequence" else not v)
+    # A or B
+    if isinstance(test, ast.BoolOp) and isinstance(test.op, ast.Or):
+        vals = [class_test(t, var, cls) for t in test.values]
+        return None if any(v is None for v in vals) else any(bool(v) for v in vals)
     # A and B
     if isinstance(test, ast.BoolOp) and isinstance(test.op, ast.And):
         vals = [class_test(t, var, cls) for t in test.values]
